@@ -239,7 +239,7 @@ def directed():
 
 def run(tier, seed):
     return run_property(
-        "C05", tier, seed, ["C05.v", "C05conc.v", "C05cmd.v", "M4link.v"], ["props/C05.vo", "props/C05conc.vo", "props/C05cmd.vo", "props/M4link.vo"],
+        "C05", tier, seed, ["C05.v", "C05conc.v", "C05cmd.v", "C05refusal.v", "M4link.v"], ["props/C05.vo", "props/C05conc.vo", "props/C05cmd.vo", "props/C05refusal.vo", "props/M4link.vo"],
         profile={"deploy": 14, "deploy_fail": 2, "remove": 5, "restart": 2, "rollout_deploy": 1, "rollout_set": 0,
                  "rollout_stop": 0, "pause": 1, "stop": 1, "resume": 1},
         monitor="c05_ok h && c05_cmd_ok h && c05_refusal_ok h", n_quick=40, n_thorough=600, extra=both, fixed=directed())
